@@ -304,7 +304,7 @@ def _keep_sanitizer_report(stderr, args):
     if SAN_DIR and (b"Sanitizer" in stderr):
         fd, path = tempfile.mkstemp(prefix="san-", suffix=".txt", dir=SAN_DIR)
         with os.fdopen(fd, "wb") as f:
-            f.write(("argv: %r\n" % (args,)).encode() + stderr[-20000:])
+            f.write(("argv: %r\n" % (args,)).encode() + stderr[:400000])
 
 
 def run_rg(args, cwd, home, rg=None, stdin=None, timeout=60, uid=None):
@@ -435,6 +435,9 @@ def par_map(fn, items, jobs=None):
     """Run fn over items in a process pool (fork); results in order."""
     import multiprocessing as mp
     jobs = jobs or NCPU
+    # created here so that the forked workers share it: a worker leaves through
+    # os._exit, which would skip the removal of a scratch root of its own
+    scratch_root()
     if jobs <= 1 or len(items) <= 1:
         return [fn(x) for x in items]
     ctx = mp.get_context("fork")
